@@ -7,9 +7,9 @@ from props import c05
 from harness import pipeline as PL, solver as S
 
 SPEC = {
-    "gen": ["Rotations", "GetHkl", "Crystal", "UtilLeaf", "SolverLeaf"],
+    "gen": ["Rotations", "GetHkl", "Crystal", "UtilLeaf", "SolverLeaf", "SolverDispatch"],
     "modules": ["DiffcalcProofs.Props.C11", "DiffcalcProofs.Props.C08Miscut", "DiffcalcProofs.Props.TieSolver"],
-    "theorems": {"DiffcalcProofs.Props.TieSolver": ["TieSolver.small_generated", "TieSolver.bound_generated", "TieSolver.sign_generated", "TieSolver.anglesEquivalent_generated", "TieSolver.refConChiMu_generated", "TieSolver.refConMuPhi_generated", "TieSolver.refConEtaPhi_generated", "TieSolver.refConChiPhi_generated", "TieSolver.sampleConPhi_generated", "TieSolver.sampleConChi_generated", "TieSolver.sampleConEta_generated", "TieSolver.sampleConMuChi_generated", "TieSolver.sampleConEtaPhi_generated", "TieSolver.sampleConEtaChi_generated", "TieSolver.sampleConMuPhi_generated", "TieSolver.sampleConMuEta_generated", "TieSolver.detFromDelta_generated", "TieSolver.detFromNu_generated", "TieSolver.sampleConMu_generated", "TieSolver.refConMuEta_generated", "TieSolver.refConChiEta_generated", "TieSolver.sampleConChiPhi_generated", "TieSolver.sampleConOmegaBisect_generated", "TieSolver.sampleConMuBisect_generated", "TieSolver.sampleConEtaBisect_generated", "TieSolver.chiAndQaz_generated"],
+    "theorems": {"DiffcalcProofs.Props.TieSolver": ["TieSolver.small_generated", "TieSolver.bound_generated", "TieSolver.sign_generated", "TieSolver.anglesEquivalent_generated", "TieSolver.refConChiMu_generated", "TieSolver.refConMuPhi_generated", "TieSolver.refConEtaPhi_generated", "TieSolver.refConChiPhi_generated", "TieSolver.sampleConPhi_generated", "TieSolver.sampleConChi_generated", "TieSolver.sampleConEta_generated", "TieSolver.sampleConMuChi_generated", "TieSolver.sampleConEtaPhi_generated", "TieSolver.sampleConEtaChi_generated", "TieSolver.sampleConMuPhi_generated", "TieSolver.sampleConMuEta_generated", "TieSolver.detFromDelta_generated", "TieSolver.detFromNu_generated", "TieSolver.sampleConMu_generated", "TieSolver.refConMuEta_generated", "TieSolver.refConChiEta_generated", "TieSolver.sampleConChiPhi_generated", "TieSolver.sampleConOmegaBisect_generated", "TieSolver.sampleConMuBisect_generated", "TieSolver.sampleConEtaBisect_generated", "TieSolver.twoSampleDetector_generated", "TieSolver.twoSampleReference_generated", "TieSolver.chiAndQaz_generated"],
         "DiffcalcProofs.Props.C08Miscut": ["C08.getMiscut_total"], "DiffcalcProofs.Props.C11": [
         "C11.c11_getPosition", "C11.getPosition_noLeak", "C11.getPosition_nonempty", "C11.hklToPosition_noLeak", "C11.noLeak_candidates",
         "C11.virtualAngles_total", "C11.noLeak_ttheta", "C11.calcN_total", "C11.angleBetween_total", "C11.noLeak_detSampleReference",
